@@ -87,6 +87,24 @@ fn script_b() -> Vec<Step> {
     ]
 }
 
+/// Script (c): tables whose serialized size is an exact multiple of 4 KiB and
+/// of 8 KiB (the container's buffer), and one byte pair more: the last block
+/// a writer hands over may be full, empty or tiny.
+fn script_c() -> Vec<Step> {
+    vec![
+        step("create_table(Grid)", |p| p.create_table("Grid", vec![Column::build("k").primary_key().int16(), Column::build("v").int16()])),
+        step("create_table(Wide8)", |p| p.create_table("Wide8", vec![Column::build("k").primary_key().int16(), Column::build("a").int16(), Column::build("b").int32()])),
+        flush_point(0),
+        step("insert 1024 rows (4096 bytes)", |p| p.insert_rows(Insert::into("Grid").rows((0..1024).map(|i| vec![Value::Int(i - 500), Value::Int(i % 97)]).collect()))),
+        flush_point(1),
+        step("insert 512 rows of 8 bytes (4096 bytes)", |p| p.insert_rows(Insert::into("Wide8").rows((0..512).map(|i| vec![Value::Int(i), Value::Int(-i), Value::Int(i * 65_537)]).collect()))),
+        step("insert 1024 more rows (8192 bytes)", |p| p.insert_rows(Insert::into("Grid").rows((1024..2048).map(|i| vec![Value::Int(i - 500), Value::Int(i % 89)]).collect()))),
+        flush_point(2),
+        step("insert one more row (8196 bytes)", |p| p.insert_rows(Insert::into("Grid").row(vec![Value::Int(3000), Value::Int(1)]))),
+        step("delete back to 4096 bytes", |p| p.delete_rows(Delete::from("Grid").with(Expr::col("k").ge(Expr::integer(524))))),
+    ]
+}
+
 /// The prepared package of script (b): a pool of more than 3,000 strings and
 /// table streams beyond the container's 8 KiB stream buffer.
 pub fn prepared_bytes() -> Vec<u8> {
@@ -105,6 +123,7 @@ pub struct Script {
 pub fn script(id: &str, prepared: &[u8]) -> Script {
     match id {
         "a" => Script { id: "a", initial: None, steps: script_a() },
+        "c" => Script { id: "c", initial: None, steps: script_c() },
         _ => Script { id: "b", initial: Some(prepared.to_vec()), steps: script_b() },
     }
 }
@@ -409,12 +428,12 @@ pub fn check_generated(g: &GenFault) -> Result<bool, Fail> {
 pub fn run(ctx: &Ctx) -> Report {
     let mut rep = Report::new(
         "fault_enumeration",
-        "two fixed scripts — (a) create, create table, batch insert with strings, 20,000-byte stream, summary change, flush, more inserts / update / delete / second table, flush, small stream, drop table, into_inner; (b) open of a prepared package whose pool holds 3,200 strings and whose table streams exceed 8 KiB, insert, update, flush, delete, into_inner — and, for each, EVERY index k of the write, read and seek calls the fault-free run issues to the medium, under a transient fault (only call k fails) and a persistent one (call k and all later calls of that kind fail); the thorough tier adds generated scripts from the C01 profile under generated plans. Oracle: whenever a flush or into_inner returns Ok after calls that all returned Ok, the bytes on the medium at that instant are reopened on a clean medium and must equal the fault-free run's state at that point; no plan may cause a panic. Non-trivial = the plan's fault was actually hit; distinct by (script, kind, k, mode).",
+        "three fixed scripts — (a) create, create table, batch insert with strings, 20,000-byte stream, summary change, flush, more inserts / update / delete / second table, flush, small stream, drop table, into_inner; (b) open of a prepared package whose pool holds 3,200 strings and whose table streams exceed 8 KiB, insert, update, flush, delete, into_inner; (c) two integer tables grown to exactly 4,096 and 8,192 bytes, one row more, and back, with a flush after each size — and, for each, EVERY index k of the write, read and seek calls the fault-free run issues to the medium, under a transient fault (only call k fails) and a persistent one (call k and all later calls of that kind fail); the thorough tier adds generated scripts from the C01 profile under generated plans. Oracle: whenever a flush or into_inner returns Ok after calls that all returned Ok, the bytes on the medium at that instant are reopened on a clean medium and must equal the fault-free run's state at that point; no plan may cause a panic. Non-trivial = the plan's fault was actually hit; distinct by (script, kind, k, mode).",
     );
     rep.assumptions.push("dropping a Package without flush / into_inner promises nothing (Drop cannot report), so scripts end in an explicit into_inner; the harness flushes every StreamWriter explicitly".into());
     let mut st = Stats::new();
     let prepared = prepared_bytes();
-    for id in ["a", "b"] {
+    for id in ["a", "b", "c"] {
         let s = script(id, &prepared);
         let (counts, reference) = match reference(&s) {
             Ok(x) => x,
